@@ -1,6 +1,6 @@
 //go:build verif
 
-//verif:bounds fmtInt: all ten integer types x base 8/10/16, value over the whole range of the type; padLen any int in the pad harness (values of at most 2 digits there); %s/%t: strings and byte slices of 0..3 bytes, widths 0..6; Fprintf scan: format strings of L fully symbolic bytes (quick 3, thorough 5), up to 2 arguments
+//verif:bounds fmtInt: all eleven built-in integer types (uint8..uint64, uint, uintptr, int8..int64, int) x base 8/10/16, value over the whole range of the type; padLen any int in the pad harness (values of at most 2 digits there); %s/%t: strings and byte slices of 0..3 bytes, widths 0..6; Fprintf scan: format strings of L fully symbolic bytes (quick 3, thorough 5), up to 2 arguments
 //verif:assumes output is captured by a harness io.Writer with a 48-byte buffer (writing past it is a Go index panic, i.e. a violation)
 package kfmt
 
@@ -52,9 +52,12 @@ func vfIntArg(k int) (v interface{}, neg bool, mag uint64) {
 	case 8:
 		x := int64(zzverif.U64("v"))
 		return x, x < 0, vfAbs(x)
-	default:
+	case 9:
 		x := zzverif.Int("v")
 		return x, x < 0, vfAbs(int64(x))
+	default:
+		x := uint(zzverif.U64("v"))
+		return x, false, uint64(x)
 	}
 }
 
@@ -86,7 +89,7 @@ func vfCheckDigits(s *vfSink, start, end int, mag uint64, base uint64) {
 func vfBase(k int) int { return [3]int{8, 10, 16}[k] }
 
 func vfIntDigits(base int) {
-	v, neg, mag := vfIntArg(zzverif.Choice("type", 10))
+	v, neg, mag := vfIntArg(zzverif.Choice("type", 11))
 	var s vfSink
 	fmtInt(&s, v, base, 0)
 	zzverif.Reach("formatted")
